@@ -263,7 +263,14 @@ func (fr *Frame) invoke(ctx *callCtx) Val {
 		return fr.pureHavoc(ctx)
 	}
 	e.note("unmodelled", "interface call without spec: "+ctx.name)
-	return fr.havocCall(ctx, true)
+	// interfaces of the storage/encoding libraries cannot reach the module stores through layer code
+	libIface := false
+	for _, p := range []string{"(cosmossdk.io/collections/codec.", "(cosmossdk.io/core/store.", "(io.", "(fmt.", "(sort.", "(encoding", "(hash.", "(cosmossdk.io/collections."} {
+		if strings.HasPrefix(ctx.name, p) {
+			libIface = true
+		}
+	}
+	return fr.havocCall(ctx, !libIface)
 }
 
 var invokeByMethod = map[string]func(c *callCtx) (Val, bool){}
